@@ -39,7 +39,7 @@ BATCH = 6
 
 
 def plan(tier, seed):
-    n = 400 if tier == "quick" else 5000
+    n = 1200 if tier == "quick" else 8000
     descs = [{"kind": "hist", "seed": seed, "start": s, "n": BATCH, "hists": 2 if tier == "quick" else 6} for s in range(0, n, BATCH)]
     m = 60 if tier == "quick" else 600
     descs += [{"kind": "map", "seed": seed, "start": s, "n": 4} for s in range(0, m, 4)]
@@ -66,6 +66,10 @@ def gen_history(case, rng, length, arrays=False):
     outs = daggen.all_outputs(case)
     hist = []
     alpha = {r: [f"{r}u", f"{r}v"] for r in case["roots"]}
+    # supplied values may coincide with the default or with a value some function binds under the same name
+    for r in case["roots"]:
+        alpha[r] += [case["defaults"][r]] if r in case["defaults"] else []
+        alpha[r] += sorted({f["bound"][r] for f in case["funcs"] if r in f["bound"]})
     if arrays:
         # array-valued arguments: a square matrix, its transposed VIEW (same buffer, same shape, other content) and an
         # equal Fortran-ordered copy - equal arguments must hit, unequal ones must not
@@ -78,6 +82,21 @@ def gen_history(case, rng, length, arrays=False):
             r = rng.choice(sorted(alpha))
             hist.append({"op": "mutate-argument-in-place", "root": r, "item": f"{r}L{len(hist)}"})
             continue
+        earlier_calls = [h for h in hist if h["op"] == "call" and h["kind"] == "root"]
+        if earlier_calls and not arrays and rng.random() < 0.25:
+            # neighbour of an earlier call: the same request with exactly one root argument dropped (default used),
+            # added, or set to another value of its alphabet (incl. the default / a bound value of that name)
+            h = rng.choice(earlier_calls)
+            roots = sorted(daggen.needed_roots(case, h["out"]))
+            if roots:
+                r = rng.choice(roots)
+                K = dict(h["K"])
+                if r in K and r in case["defaults"] and rng.random() < 0.5:
+                    del K[r]
+                else:
+                    K[r] = rng.choice([a for a in alpha[r] if a != K.get(r)] or alpha[r])
+                hist.append({"op": "call", "out": h["out"], "K": K, "kind": "root", "full": rng.random() < 0.25, "neighbour": True})
+                continue
         if x < 0.70 or not hist:
             out = rng.choice(outs)
             roots = sorted(daggen.needed_roots(case, out))
@@ -105,6 +124,11 @@ def gen_history(case, rng, length, arrays=False):
         else:
             f = rng.choice(case["funcs"])
             hist.append({"op": "replace", "func": f["name"], "prefix": f"R{len(hist)}_"})
+        if hist[-1]["op"] != "call" and rng.random() < 0.6:
+            # right after a mutation, repeat earlier calls verbatim (what a never-invalidated cache would answer stale)
+            earlier = [h for h in hist if h["op"] == "call"]
+            for h in rng.sample(earlier, min(len(earlier), rng.randint(1, 2))):
+                hist.append(dict(h, K=dict(h["K"]), repeat_after_mutation=True))
     return hist
 
 
@@ -217,17 +241,24 @@ def apply_history(v, case, hist, cached, cache_type, scratch, tag, desc_w):
                 v.bad(exc_sig(p[1], f"cached-raises/{cache_type}/{ctx}"), f"cached pipeline raised where the uncached twin returned: {exc_msg(p[1])}", **w)
                 return hits
             if p[1] != q[1]:
-                # classification: does the cached pipeline serve the value of a pre-mutation state?
+                # classification: does the cached pipeline serve a value of a pre-mutation state, and WHICH kind of
+                # mutation has to be ignored to explain it?  Hybrid states take the components named by `kinds`
+                # (defaults / bound values / replaced functions) from an old state and the rest from the current one;
+                # the smallest set of kinds that explains the value names the mechanism.
                 sig = f"diverge/{last_mut}/{ctx}"
                 current = (dict(defaults), {k: dict(x) for k, x in bound.items()}, dict(prefix))
-                for st0, mk in old_states:
-                    # explained by results cached before ONE mutation of kind mk (mixed with fresh ones)?
-                    if str(p[1]) in possible_values(case, out, K, [st0, current]):
-                        sig = f"stale-after-mutation:{mk}"
+                names = ("update_defaults", "update_bound", "replace")
+                import itertools as _it
+                done = False
+                for size in (1, 2, 3):
+                    for kinds in _it.combinations(range(3), size):
+                        hyb = [tuple(st0[c] if c in kinds else current[c] for c in range(3)) for st0, _ in old_states]
+                        if old_states and str(p[1]) in possible_values(case, out, K, hyb + [current]):
+                            sig = "stale-after-mutation:" + "+".join(names[c] for c in kinds)
+                            done = True
+                            break
+                    if done:
                         break
-                else:
-                    if old_states and str(p[1]) in possible_values(case, out, K, [s0 for s0, _ in old_states] + [current]):
-                        sig = "stale-after-mutation:several"
                 v.bad(sig, f"cached pipeline returned {p[1]!r:.160}, uncached twin {q[1]!r:.160}", **w)
                 return hits
             if len(p[2]) < len(q[2]):
@@ -275,6 +306,9 @@ def apply_history(v, case, hist, cached, cache_type, scratch, tag, desc_w):
                 return hits
             v.count(f"mutations:{op['op']}")
             if op["op"] == "update_defaults":
+                # overwrite=True replaces every function's defaults: earlier updates revert to the signature defaults
+                defaults.clear()
+                defaults.update(case["defaults"])
                 defaults[op["name"]] = op["value"]
             elif op["op"] == "update_bound":
                 bound[op["func"]][op["name"]] = op["value"]
@@ -315,6 +349,24 @@ def run_maps(v, desc, scratch, keys):
         case = mapgen.case_from_seed(desc["seed"], i, max_funcs=3)
         rng = random.Random(f"c09m:{desc['seed']}:{i}")
         inputs = mapgen.make_inputs(case)
+        if i % 3 == 1:
+            # values whose hash() collides although they are unequal: hash(-1) == hash(-2), hash(2**61 - 1) == hash(0),
+            # hash(2**61) == hash(1) - a key that keeps only hashes would confuse them
+            pool = [-1, -2, 0, 2 ** 61 - 1, 1, 2 ** 61]
+            cnt = [rng.randrange(len(pool))]
+
+            def swap(x):
+                if isinstance(x, list):
+                    return [swap(y) for y in x]
+                if isinstance(x, np.ndarray):
+                    out = np.empty(x.shape, dtype=object)
+                    for ix in np.ndindex(x.shape):
+                        out[ix] = swap(x[ix])
+                    return out
+                cnt[0] += 1
+                return pool[cnt[0] % len(pool)]
+            inputs = {k: (swap(val) if isinstance(val, (list, np.ndarray)) else val) for k, val in inputs.items()}
+            v.count("map_cases_with_hash_colliding_inputs")
         # repeated input values so that equal kwargs recur
         for k, val in list(inputs.items()):
             if isinstance(val, list) and len(val) >= 2:
